@@ -528,7 +528,7 @@ let run_history (l : n) (cap : n) (mode : string) (k : n) (line : string) : stri
             Some (wd, hget (!st).base (nat_of_string m), hget (!st).base (nat_of_string x))
         | _ -> None) in
       let opws = (match opws with ["decn"; h] -> ["dec"; h] | ["sallocn"; h] -> ["salloc"; h] | _ -> opws) in
-      let o = (match audit_half with Some _ -> O3Preds O | None -> parse_op3 opws) in
+      let o = (match audit_half with Some _ -> O3Preds O | None -> (match opws with ["ptrs"; _] | ["swalloc"] -> O3NewCtrl | _ -> parse_op3 opws)) in
       describe_mode := (match opws with "desc" :: _ -> true | _ -> false);
       let stepped = (match audit_half with
         | Some (_, None, _) | Some (_, _, None) -> Ret ((!st, Out OutSkip), !w)
@@ -536,7 +536,11 @@ let run_history (l : n) (cap : n) (mode : string) (k : n) (line : string) : stri
             (match (if wd = "mkey" then map_add_key refuse p q !w else map_add_value p q !w) with
              | Fault kd -> Fault kd
              | Ret (b, w') -> Ret ((!st, Out (OutBool b)), w'))
-        | None -> step3 refuse l !st o !w) in
+        | None ->
+            (match opws with
+             | ["ptrs"; h] -> ptrs3 !st (nat_of_string h) !w          (* calls kept outside op3 *)
+             | ["swalloc"] -> set_allocs !st !w
+             | _ -> step3 refuse l !st o !w)) in
       (match stepped with
        | Fault kd -> faulted := true; Buffer.add_string b ("FAULT:" ^ fkind_s kd ^ ";")
        | Ret ((s', ot), w') ->
